@@ -114,24 +114,26 @@ def WFKids : List Node → Prop
      | _ => WF c) ∧ WFKids cs
 end
 
-/-- well-formed triedb value / child / node (hashes are 32 bytes and not all zero: see the finding
-    `triedb-zero-hash`) -/
-def GoodHash (h : Bytes) : Prop := h.length = 32 ∧ h.all (· == 0) = false
+/-- a triedb hash: 32 bytes; with `quirk` (the code as it is, see finding `triedb-zero-hash`) also
+    not all zero -/
+def HashOK (quirk : Bool) (h : Bytes) : Prop := h.length = 32 ∧ (quirk = true → h.all (· == 0) = false)
 
-def TValueOK : TValue → Prop
+def TValueOK (quirk : Bool) : TValue → Prop
   | .inline b => b.length < 1073741824
-  | .hashed h => GoodHash h
+  | .hashed h => HashOK quirk h
 
-def TChildOK : TChild → Prop
+def TChildOK (quirk : Bool) : TChild → Prop
   | .none => True
   | .inline b => b.length < 32
-  | .hashed h => GoodHash h
+  | .hashed h => HashOK quirk h
 
-def TWF : TNode → Prop
+/-- well-formed triedb node: packed key with offset 0/1 and at most 65535 nibbles, 16 child slots,
+    inlined children shorter than 32 bytes, hashes of 32 bytes -/
+def TWF (quirk : Bool) : TNode → Prop
   | .empty => True
-  | .leaf d o v => o < 2 ∧ (d = [] → o = 0) ∧ 2 * d.length - o ≤ 65535 ∧ TValueOK v
+  | .leaf d o v => o < 2 ∧ (d = [] → o = 0) ∧ 2 * d.length - o ≤ 65535 ∧ TValueOK quirk v
   | .branch d o v kids =>
-    o < 2 ∧ (d = [] → o = 0) ∧ 2 * d.length - o ≤ 65535 ∧ (∀ x, v = some x → TValueOK x) ∧
-      kids.length = 16 ∧ ∀ c ∈ kids, TChildOK c
+    o < 2 ∧ (d = [] → o = 0) ∧ 2 * d.length - o ≤ 65535 ∧ (∀ x, v = some x → TValueOK quirk x) ∧
+      kids.length = 16 ∧ ∀ c ∈ kids, TChildOK quirk c
 
 end Gossamer.C07
